@@ -154,7 +154,9 @@ def wrapped_flush(ex, args, callee):
 
 def wrapped_stats(ex, args, callee):
     op(ex, 'wrapped_stats', None)
-    return Native('SinkStatsToken', None, fresh_id())
+    syms = [z3.BitVec('wstat_%d' % i, 64) for i in range(4)]
+    ex.out['stats_syms'] = syms
+    return Agg('struct', 'SinkStats', None, tuple(Int(t, 'u64') for t in syms))
 
 
 def wrapped_drop(ex, v):
